@@ -32,6 +32,20 @@ bool ops_bias(Ctx &c, Toks const &t)
     c.out("data", join(o));
     return true;
   }
+  if (t[0] == "e.dump") {
+    colvar *cv = cvm::colvar_by_name(t[1]);
+    if (!cv) { c.out("xr", "snone"); return true; }
+    c.out("xr", ftok(cv->value().real_value));
+    c.out("vr", ftok(cv->velocity().real_value));
+    c.out("ek", ftok(cv->kinetic_energy));
+    c.out("ep", ftok(cv->potential_energy));
+    c.out("fr", ftok(cv->fr.real_value));
+    c.out("fa", ftok(cv->f.real_value));
+    c.out("xnext", ftok(cv->x_ext.real_value));
+    c.out("vnext", ftok(cv->v_ext.real_value));
+    c.out("err", itok(c.proxy->all_errors.find("still outside boundaries") != std::string::npos ? 1 : 0));
+    return true;
+  }
   if (t[0] == "mt.dump") {
     colvarbias_meta *m = dynamic_cast<colvarbias_meta *>(cvm::bias_by_name(t[1]));
     if (!m) { c.out("nhills", "snone"); return true; }
